@@ -5,6 +5,7 @@ import (
 	"fmt"
 	"math/rand"
 	"net/netip"
+	"strings"
 	"time"
 
 	"github.com/DataDog/datadog-traceroute/traceroute"
@@ -66,6 +67,18 @@ func destForms() []destForm {
 		{"rst-ack", is("syn"), func(e *simEnv, p *refmatch.Probe, from netip.Addr) []byte {
 			return gen.TCPReply(from, e.local, e.spec.Port, e.lport, 0, p.Seq+1, wirefmt.TCPRst|wirefmt.TCPAck, nil, nil, nil)
 		}},
+		// the target's proof of arrival behind IP options (CIPSO labels, record route, router alert on the way back): the
+		// capture filter the run installed is enforced for these forms, it is on the path the reply takes to the driver
+		{"syn-ack-ip-options", is("syn"), func(e *simEnv, p *refmatch.Probe, from netip.Addr) []byte {
+			return gen.TCPReply(from, e.local, e.spec.Port, e.lport, 0x66000000, p.Seq+1, wirefmt.TCPSyn|wirefmt.TCPAck, wirefmt.OptMSS(1460), nil, gen.OuterOpts(1+p.TTL%3))
+		}},
+		{"rst-ack-ip-options", is("syn"), func(e *simEnv, p *refmatch.Probe, from netip.Addr) []byte {
+			return gen.TCPReply(from, e.local, e.spec.Port, e.lport, 0, p.Seq+1, wirefmt.TCPRst|wirefmt.TCPAck, nil, nil, gen.OuterOpts(1+p.TTL%3))
+		}},
+		{"dup-ack-sack-ip-options", is("sack"), func(e *simEnv, p *refmatch.Probe, from netip.Addr) []byte {
+			return gen.TCPReply(from, e.local, e.spec.Port, e.lport, 0x51000001, e.isn, wirefmt.TCPAck,
+				append([]byte{1, 1}, wirefmt.OptSack([][2]uint32{{e.isn + uint32(p.TTL), e.isn + uint32(p.TTL) + 1}})...), nil, gen.OuterOpts(1+p.TTL%3))
+		}},
 		{"rst", is("syn"), func(e *simEnv, p *refmatch.Probe, from netip.Addr) []byte {
 			return gen.TCPReply(from, e.local, e.spec.Port, e.lport, 0, 0, wirefmt.TCPRst, nil, nil, nil)
 		}},
@@ -75,6 +88,11 @@ func destForms() []destForm {
 		{"dup-ack-sack", is("sack"), func(e *simEnv, p *refmatch.Probe, from netip.Addr) []byte {
 			return gen.TCPReply(from, e.local, e.spec.Port, e.lport, 0x51000001, e.isn, wirefmt.TCPAck,
 				append([]byte{1, 1}, wirefmt.OptSack([][2]uint32{{e.isn + uint32(p.TTL), e.isn + uint32(p.TTL) + 1}})...), nil, nil)
+		}},
+		// a duplicate acknowledgement WITHOUT selective-acknowledgement blocks says nothing about which probe arrived: it is no
+		// proof of arrival for any TTL (the run may end with "SACK not supported", it may not mark a hop)
+		{"plain-dup-ack", is("sack"), func(e *simEnv, p *refmatch.Probe, from netip.Addr) []byte {
+			return gen.TCPReply(from, e.local, e.spec.Port, e.lport, 0x51000001, e.isn, wirefmt.TCPAck, nil, nil, nil)
 		}},
 		{"dup-ack-sack-other-port", is("sack"), func(e *simEnv, p *refmatch.Probe, from netip.Addr) []byte {
 			return gen.TCPReply(from, e.local, e.spec.Port+1, e.lport, 0x51000001, e.isn, wirefmt.TCPAck,
@@ -137,7 +155,11 @@ func checkC04() fw.Check {
 														continue
 													}
 													tag := fmt.Sprintf("%s reach=%v pos=%s responder=%s early=%v", id, reach, pos, rc, early)
-													sc := scenario{tag: tag, v: v, win: w, b: b, model: func(e *simEnv) *pathModel {
+													mode := simnet.FilterOff
+													if strings.HasSuffix(df.name, "-ip-options") {
+														mode = simnet.FilterEnforce
+													}
+													sc := scenario{tag: tag, v: v, win: w, b: b, mode: mode, model: func(e *simEnv) *pathModel {
 														m := simplePathWin(v, w, dist, reach, 9*time.Millisecond)
 														if !v.Serial && early && pos == "at" && rc == "target" {
 															// the sender is still inside the write of this probe (150 ms) when its answers are
